@@ -33,7 +33,6 @@ import (
 	"sort"
 	"strconv"
 	"strings"
-	"syscall"
 
 	"github.com/33cn/chain33/common/crypto"
 	_ "github.com/33cn/chain33/system"
@@ -44,50 +43,9 @@ import (
 	"verifharness/internal/gen"
 )
 
-// out is created in main after fd 1 has been pointed at stderr for everybody else (chain33's
-// logger writes to os.Stdout): the protocol stream must not be interleaved with log lines.
 var out *gen.Out
 
-func isolateStdout() {
-	fd, err := syscall.Dup(1)
-	if err != nil {
-		return
-	}
-	if err := syscall.Dup2(2, 1); err != nil {
-		return
-	}
-	// gen.NewOut binds to os.Stdout at construction; everybody else (log15, fmt.Printf in the
-	// drivers) keeps the original *os.File, whose fd 1 now is stderr.
-	orig := os.Stdout
-	os.Stdout = os.NewFile(uintptr(fd), "protocol")
-	out = gen.NewOut()
-	os.Stdout = orig
-}
-
 func hx(b []byte) string { return hex.EncodeToString(b) }
-
-// ---------------------------------------------------------------------------------------------
-// spy driver: observes the exact message bytes checkSign hands to the crypto driver.
-
-type spyDriver struct{}
-
-var spyMsg, spyPub, spySig []byte
-var spyCalls int
-
-const spyName = "verifspy"
-const spyID = 3999
-
-func (spyDriver) GenKey() (crypto.PrivKey, error)                       { return nil, nil }
-func (spyDriver) SignatureFromBytes([]byte) (crypto.Signature, error) { return nil, nil }
-func (spyDriver) PrivKeyFromBytes([]byte) (crypto.PrivKey, error)     { return nil, nil }
-func (spyDriver) PubKeyFromBytes([]byte) (crypto.PubKey, error)       { return nil, nil }
-func (spyDriver) Validate(msg, pub, sig []byte) error {
-	spyMsg = append([]byte(nil), msg...)
-	spyPub = append([]byte(nil), pub...)
-	spySig = append([]byte(nil), sig...)
-	spyCalls++
-	return nil
-}
 
 // ---------------------------------------------------------------------------------------------
 // ops
@@ -95,18 +53,6 @@ func (spyDriver) Validate(msg, pub, sig []byte) error {
 func opSha(b []byte) {
 	s := sha256.Sum256(b)
 	out.Op("sha256 "+txw.Hex(b), hx(s[:]))
-}
-
-// signBytesObserved returns the message the implementation hands to the driver for tx (via the spy).
-func signBytesObserved(tx *types.Transaction) []byte {
-	c := txw.Copy(tx)
-	c.Signature = &types.Signature{Ty: spyID, Pubkey: []byte{1}, Signature: []byte{2}}
-	spyCalls = 0
-	spyMsg = nil
-	if !c.CheckSign(-1) || spyCalls != 1 {
-		return []byte("spy-not-called")
-	}
-	return spyMsg
 }
 
 type txObs struct {
@@ -121,7 +67,7 @@ func opTx(tx *types.Transaction) txObs {
 		o.enc = types.Encode(tx)
 		o.hash = tx.Hash()
 		o.full = tx.FullHash()
-		o.sb = signBytesObserved(tx)
+		o.sb = txw.SignBytesObserved(tx)
 		o.ok = true
 		return fmt.Sprintf("%s %s %s %s %d", txw.Hex(o.enc), hx(o.hash), hx(o.full), txw.Hex(o.sb), tx.Size())
 	})
@@ -554,71 +500,8 @@ func phaseMutate(r *gen.Rand, n int) {
 // ---------------------------------------------------------------------------------------------
 // registry / configurations
 
-type drvInfo struct {
-	name   string
-	id     int32
-	enable bool
-	height int64
-}
-
-// observeRegistry reads the registry through exported API only: names and type ids from
-// GetCryptoList, enabled/enableHeight from the verdicts of crypto.Load (binary search).
-func observeRegistry() []drvInfo {
-	names, ids := crypto.GetCryptoList()
-	var ds []drvInfo
-	for i, n := range names {
-		d := drvInfo{name: n, id: ids[i]}
-		const top = int64(1) << 62
-		if _, err := crypto.Load(n, top); err == nil {
-			d.enable = true
-			lo, hi := int64(0), top // smallest h with Load ok
-			for lo < hi {
-				mid := lo + (hi-lo)/2
-				if _, err := crypto.Load(n, mid); err == nil {
-					hi = mid
-				} else {
-					lo = mid + 1
-				}
-			}
-			d.height = lo
-		}
-		ds = append(ds, d)
-	}
-	sort.Slice(ds, func(i, j int) bool { return ds[i].id < ds[j].id })
-	return ds
-}
-
-func b01(b bool) string {
-	if b {
-		return "1"
-	}
-	return "0"
-}
-
-func emitRegistry() []drvInfo {
-	ds := observeRegistry()
-	for _, d := range ds {
-		out.Op(fmt.Sprintf("reg %s %d %s %d", d.name, d.id, b01(d.enable), d.height), "ok")
-	}
-	return ds
-}
-
-func loadRes(name string, h int64) string {
-	_, err := crypto.Load(name, h)
-	switch err {
-	case nil:
-		return "ok"
-	case crypto.ErrUnknownDriver:
-		// ErrDriverNotEnable carries the same text; they are distinct error values
-		return "unknown"
-	case crypto.ErrDriverNotEnable:
-		return "notenable"
-	}
-	return "err:" + err.Error()
-}
-
 func opLoad(name string, h int64) string {
-	res := loadRes(name, h)
+	res := txw.LoadRes(name, h)
 	out.Op(fmt.Sprintf("load %s %d", name, h), res)
 	out.Stat("load_"+res, 1)
 	return res
@@ -649,38 +532,17 @@ func opInit(enableTypes []string, heights map[string]int64) {
 // ---------------------------------------------------------------------------------------------
 // sign / verify
 
-func driverNameOf(tx *types.Transaction) string {
-	return types.GetSignName(string(tx.Execer), int(tx.Signature.Ty))
-}
-
-// oracle: the driver's own verdict on (message as observed through the spy, pub, sig): 1 | 0 | p(anic)
-func oracle(tx *types.Transaction) string {
-	if tx.Signature == nil {
-		return "0"
-	}
-	c, err := crypto.Load(driverNameOf(tx), -1)
-	if err != nil || c == nil {
-		return "0"
-	}
-	msg := signBytesObserved(tx)
-	res := gen.Guard(func() string { return b01(c.Validate(msg, tx.Signature.Pubkey, tx.Signature.Signature) == nil) })
-	if res == "panic" {
-		return "p"
-	}
-	return res
-}
-
 // opCheckSign observes tx.CheckSign(h).  label: "honest" (signed by the key, untouched: must verify
 // iff the type is enabled at h), "unsigned", or "mut:<kind>" (altered after signing: must fail).
 func opCheckSign(h int64, tx *types.Transaction, label string) bool {
-	or := oracle(tx)
+	or := txw.Oracle(tx)
 	var ok bool
-	res := gen.Guard(func() string { ok = tx.CheckSign(h); return b01(ok) })
+	res := gen.Guard(func() string { ok = tx.CheckSign(h); return txw.B01(ok) })
 	out.Op(fmt.Sprintf("checksign %d %s %s %s", h, or, txw.Tok(tx), label), res)
 	out.Stat("checksign_"+strings.SplitN(label, ":", 2)[0]+"_"+res, 1)
 	name := "none"
 	if tx.Signature != nil {
-		name = driverNameOf(tx)
+		name = txw.DriverNameOf(tx)
 	}
 	if res == "panic" {
 		kind := "panic-" + label
@@ -693,7 +555,7 @@ func opCheckSign(h int64, tx *types.Transaction, label string) bool {
 	}
 	switch {
 	case label == "honest":
-		en := h >= 0 && loadRes(name, h) == "ok"
+		en := h >= 0 && txw.LoadRes(name, h) == "ok"
 		if h >= 0 && en && !ok {
 			out.Pred("C16|"+name+".CheckSign|honest-signature-rejected-while-enabled", fmt.Sprintf("h=%d %s", h, txw.Tok(tx)))
 		}
@@ -854,8 +716,17 @@ func sigVariants(r *gen.Rand, name string, sig []byte) []sigVariant {
 	vs = append(vs, sigVariant{"sig-with-prepended-byte", append([]byte{byte(r.Intn(256))}, sig...)})
 	for k := 0; k < 6 && len(sig) > 0; k++ {
 		f := cp()
-		f[r.Intn(len(f))] ^= 1 << uint(r.Intn(8))
+		i, b := r.Intn(len(f)), uint(r.Intn(8))
+		if name == "secp256k1eth" && i == 64 && b == 2 {
+			b = 0 // bit 2 of the recovery id is the dedicated variant below
+		}
+		f[i] ^= 1 << b
 		vs = append(vs, sigVariant{"sig-bit-flipped", f})
+	}
+	if name == "secp256k1eth" && len(sig) == 65 {
+		f := cp()
+		f[64] ^= 4 // recovery id + 4: the "compressed key" flag of btcec's compact signatures
+		vs = append(vs, sigVariant{"sig-eth-recid-plus-4", f})
 	}
 	if len(sig) > 0 {
 		f := cp()
@@ -915,7 +786,7 @@ func signWith(s txw.Signer, key crypto.PrivKey, tx *types.Transaction, addrID in
 	tx.Sign(types.EncodeSignID(s.TypeID, addrID), key)
 }
 
-func phaseSign(r *gen.Rand, signers []txw.Signer, reg map[string]drvInfo, perSigner int, deep bool) {
+func phaseSign(r *gen.Rand, signers []txw.Signer, reg map[string]txw.DrvInfo, perSigner int, deep bool) {
 	for _, s := range signers {
 		d := reg[s.Name]
 		for i := 0; i < perSigner; i++ {
@@ -937,7 +808,7 @@ func phaseSign(r *gen.Rand, signers []txw.Signer, reg map[string]drvInfo, perSig
 			signWith(s, key, tx, addrID)
 			out.Stat(fmt.Sprintf("signed_%s_addrid%d", s.Name, addrID), 1)
 			opTx(tx)
-			hs := heightsAround(d.height, d.enable)
+			hs := heightsAround(d.Height, d.Enable)
 			for _, h := range hs {
 				opCheckSign(h, tx, "honest")
 			}
@@ -946,8 +817,8 @@ func phaseSign(r *gen.Rand, signers []txw.Signer, reg map[string]drvInfo, perSig
 			}
 			// a height at which the type is enabled (mutants are only meaningful there)
 			hOK := int64(-2)
-			if d.enable && d.height >= 0 {
-				hOK = d.height + int64(r.Intn(3))
+			if d.Enable && d.Height >= 0 {
+				hOK = d.Height + int64(r.Intn(3))
 			}
 			if hOK < 0 {
 				continue
@@ -987,7 +858,7 @@ func phaseSign(r *gen.Rand, signers []txw.Signer, reg map[string]drvInfo, perSig
 				opCheckSign(hOK, t2, "mut:pubkey-of-other-key")
 			}
 			// signature byte alterations
-			msg := signBytesObserved(tx)
+			msg := txw.SignBytesObserved(tx)
 			for _, v := range sigVariants(r, s.Name, tx.Signature.Signature) {
 				if bytes.Equal(v.sig, tx.Signature.Signature) {
 					continue
@@ -1005,7 +876,7 @@ func phaseSign(r *gen.Rand, signers []txw.Signer, reg map[string]drvInfo, perSig
 				t2 := txw.Copy(tx)
 				t2.Signature.Ty = types.EncodeSignID(o.TypeID, addrID)
 				od := reg[o.Name]
-				if od.enable && od.height >= 0 && od.height <= hOK {
+				if od.Enable && od.Height >= 0 && od.Height <= hOK {
 					opCheckSign(hOK, t2, "mut:type-switched")
 				}
 			}
@@ -1021,21 +892,13 @@ func phaseSign(r *gen.Rand, signers []txw.Signer, reg map[string]drvInfo, perSig
 	}
 }
 
-func regMap(ds []drvInfo) map[string]drvInfo {
-	m := map[string]drvInfo{}
-	for _, d := range ds {
-		m[d.name] = d
-	}
-	return m
-}
-
 // configurations: crypto.Init settings applied one after the other (the registry is global state;
 // the model follows the same sequence).
-func phaseConfigs(r *gen.Rand, signers []txw.Signer, ds []drvInfo, perSigner int) {
+func phaseConfigs(r *gen.Rand, signers []txw.Signer, ds []txw.DrvInfo, perSigner int) {
 	names := []string{}
 	for _, d := range ds {
-		if d.name != spyName {
-			names = append(names, d.name)
+		if d.Name != txw.SpyName {
+			names = append(names, d.Name)
 		}
 	}
 	type conf struct {
@@ -1051,7 +914,7 @@ func phaseConfigs(r *gen.Rand, signers []txw.Signer, ds []drvInfo, perSigner int
 	confs = append(confs, conf{nil, h1})
 	// 2: only two types enabled, one of them from a height, one negative height (never)
 	if len(signers) >= 3 {
-		confs = append(confs, conf{[]string{signers[0].Name, signers[1].Name, signers[2].Name, spyName},
+		confs = append(confs, conf{[]string{signers[0].Name, signers[1].Name, signers[2].Name, txw.SpyName},
 			map[string]int64{signers[0].Name: 0, signers[1].Name: 5000, signers[2].Name: -1, "none": 7}})
 	}
 	// 3: random
@@ -1063,7 +926,7 @@ func phaseConfigs(r *gen.Rand, signers []txw.Signer, ds []drvInfo, perSigner int
 					ts = append(ts, n)
 				}
 			}
-			ts = append(ts, spyName)
+			ts = append(ts, txw.SpyName)
 			if r.Chance(1, 4) {
 				ts = append(ts, "nosuchdriver")
 			}
@@ -1098,21 +961,21 @@ func phaseConfigs(r *gen.Rand, signers []txw.Signer, ds []drvInfo, perSigner int
 			h0[n] = 0
 		}
 	}
-	allOn = append(allOn, spyName)
+	allOn = append(allOn, txw.SpyName)
 	confs = append(confs, conf{allOn, h0})
 
 	for _, c := range confs {
 		opInit(c.types, c.heights)
-		now := observeRegistry()
-		rm := regMap(now)
+		now := txw.ObserveRegistry()
+		rm := txw.RegMap(now)
 		for _, d := range now {
-			for _, h := range append(heightsAround(d.height, d.enable), -1, -5) {
-				opLoad(d.name, h)
+			for _, h := range append(heightsAround(d.Height, d.Enable), -1, -5) {
+				opLoad(d.Name, h)
 			}
 		}
 		opLoad("nosuchdriver", 0)
 		opLoad("unknown", 10)
-		if sp := rm[spyName]; !sp.enable || sp.height != 0 {
+		if sp := rm[txw.SpyName]; !sp.Enable || sp.Height != 0 {
 			out.Note("spy driver disabled by configuration; skipped sign phase")
 			continue
 		}
@@ -1121,7 +984,7 @@ func phaseConfigs(r *gen.Rand, signers []txw.Signer, ds []drvInfo, perSigner int
 		{
 			tx := txw.PlainTx(r, "none", 0)
 			tx.Signature = &types.Signature{Ty: 10, Pubkey: r.Bytes(33), Signature: r.Bytes(64)}
-			for _, h := range heightsAround(rm["none"].height, rm["none"].enable) {
+			for _, h := range heightsAround(rm["none"].Height, rm["none"].Enable) {
 				opCheckSign(h, tx, "gate")
 			}
 		}
@@ -1161,8 +1024,8 @@ func replay(lines []string) {
 		case w[0] == "reg" && len(w) == 5:
 			// the registry of this process must be what the file says
 			res := "mismatch"
-			for _, d := range observeRegistry() {
-				if d.name == w[1] && fmt.Sprint(d.id) == w[2] && b01(d.enable) == w[3] && fmt.Sprint(d.height) == w[4] {
+			for _, d := range txw.ObserveRegistry() {
+				if d.Name == w[1] && fmt.Sprint(d.ID) == w[2] && txw.B01(d.Enable) == w[3] && fmt.Sprint(d.Height) == w[4] {
 					res = "ok"
 				}
 			}
@@ -1200,12 +1063,9 @@ func replay(lines []string) {
 }
 
 func main() {
-	isolateStdout()
-	if out == nil {
-		out = gen.NewOut()
-	}
+	out = txw.NewIsolatedOut()
 	defer out.Flush()
-	crypto.Register(spyName, spyDriver{}, crypto.WithRegOptionTypeID(spyID))
+	txw.RegisterSpy()
 	if lines := gen.ReplayLines(); lines != nil {
 		replay(lines)
 		return
@@ -1226,7 +1086,7 @@ func main() {
 	phaseFacts()
 	phaseMutate(r, gen.Scale(250, 4000))
 
-	ds := emitRegistry()
+	ds := txw.EmitRegistry(out)
 	signers := txw.Signers()
 	var sn []string
 	for _, s := range signers {
@@ -1235,10 +1095,10 @@ func main() {
 	out.Sample("registered crypto drivers: " + fmt.Sprint(ds) + "; signers with key API: " + strings.Join(sn, " "))
 	for _, d := range ds {
 		for _, h := range []int64{-1, 0, 1} {
-			opLoad(d.name, h)
+			opLoad(d.Name, h)
 		}
 	}
-	phaseSign(r, signers, regMap(ds), gen.Scale(6, 60), true)
+	phaseSign(r, signers, txw.RegMap(ds), gen.Scale(6, 60), true)
 	phaseConfigs(r, signers, ds, gen.Scale(2, 10))
-	phaseSign(r, signers, regMap(observeRegistry()), gen.Scale(2, 20), false)
+	phaseSign(r, signers, txw.RegMap(txw.ObserveRegistry()), gen.Scale(2, 20), false)
 }
